@@ -182,9 +182,9 @@ def strInner (lexeme : List Char) : String := String.ofList (lexeme.drop 1).drop
 
 /-- `off` = byte offset of the first lexeme; `acc` = the string literal collected so far
 (`none`: no literal pending, `some ""`: an empty literal is pending). Returns the tokens and
-the string carried over to the next line. -/
-def readToks (lno : Nat) : Nat → Option String → List Lexeme → List Tok × String
-  | _, acc, [] => ([], acc.getD "")
+the string literal carried over to the next line (again `none` if there is none). -/
+def readToks (lno : Nat) : Nat → Option String → List Lexeme → List Tok × Option String
+  | _, acc, [] => ([], acc)
   | off, acc, l :: ls =>
     let off' := off + byteLen l.text
     match l.rule.kind with
@@ -195,16 +195,18 @@ def readToks (lno : Nat) : Nat → Option String → List Lexeme → List Tok ×
       let (ts, p) := readToks lno off' none ls
       ((acc.map fun s => (⟨.strLit, s, loc⟩ : Tok)).toList ++ ⟨k, tokVal k l.text, loc⟩ :: ts, p)
 
-/-- the carried string as the Rust code sees it: an empty carried string is
-indistinguishable from "nothing pending" -/
-def pendingOf (pending : String) : Option String := if pending.isEmpty then none else some pending
-
-/-- Lexing one line. `pending` is the string literal text carried over from the preceding
-lines. Result: the tokens and the new carried string, or the 1-based byte column of the
-first character that cannot start a token. -/
-def lexLine (lno : Nat) (pending : String) (line : String) : Except Nat (List Tok × String) :=
+/-- Lexing one line. `pending` is the string literal carried over from the preceding lines
+(`none`: nothing is pending; `some ""`: an empty literal is pending). Result: the tokens and the
+new carried literal, or the 1-based byte column of the first character that cannot start a token. -/
+def lexLine (lno : Nat) (pending : Option String) (line : String) :
+    Except Nat (List Tok × Option String) :=
   match tile line.toList with
-  | (ls, true) => .ok (readToks lno 0 (pendingOf pending) ls)
+  | (ls, true) => .ok (readToks lno 0 pending ls)
   | (ls, false) => .error (1 + byteLen (ls.flatMap (·.text)))
+
+/-- End of input: a literal that is still pending becomes a token at `loc` (the position where
+the lexer stopped). -/
+def lexFinish (pending : Option String) (loc : Loc) : List Tok :=
+  (pending.map fun s => (⟨.strLit, s, loc⟩ : Tok)).toList
 
 end Resynth.Spec
